@@ -479,50 +479,75 @@ Proof.
     + destruct (IH l k' eq_refl Hin) as [k [H1 H2]]. exists k. split; [right; assumption|assumption].
 Qed.
 
-(* a cell survives: after renumbering, no id is on both sides *)
-Definition survives (dedup : bool) (nb : numbering) (c : cell) : Prop :=
-  exists p m, renumber dedup nb (pluses c) = Ok p /\
-              renumber dedup nb (minuses c) = Ok m /\ empty_vol p m = false.
+(* a cell survives: none of its volumes is deleted by remove_empty_volumes *)
+Definition survives (dedup : bool) (nb : numbering) (m : list (N * list Z)) (c : cell) : Prop :=
+  exists ids, parts_ids dedup nb m (snd c) = Ok (Some ids).
 
-Definition bounds (c : cell) (k : N) : Prop := In k (pluses c) \/ In k (minuses c).
+(* the cell card names surface k: one of its parts has the literal k or -k *)
+Definition names (c : cell) (k : N) : Prop :=
+  exists P z, In P (snd c) /\ In z P /\ z <> 0%Z /\ Z.abs_N z = k.
 
-Lemma used_ids_in dedup nb cells : forall u c p m,
-  used_ids dedup nb cells = Ok u -> In c cells ->
-  renumber dedup nb (pluses c) = Ok p -> renumber dedup nb (minuses c) = Ok m ->
-  empty_vol p m = false -> forall x, In x (p ++ m) -> In x u.
+(* after pot_expand_surfs one of its volumes has the TRIPOLI-4 id k0 *)
+Definition uses (m : list (N * list Z)) (c : cell) (k0 : N) : Prop :=
+  exists P zs, In P (snd c) /\ expand_part m P = Ok zs /\
+               (In k0 (pluses_of zs) \/ In k0 (minuses_of zs)).
+
+Lemma part_ids_some dedup nb m P a :
+  part_ids dedup nb m P = Ok (Some a) ->
+  exists zs p mi, expand_part m P = Ok zs /\
+    renumber dedup nb (pluses_of zs) = Ok p /\ renumber dedup nb (minuses_of zs) = Ok mi /\
+    empty_vol p mi = false /\ a = (p ++ mi)%list.
 Proof.
-  induction cells as [|c0 r IH]; intros u c p m H Hin Hp Hm He x Hx; [destruct Hin|].
-  cbn in H.
-  destruct (renumber dedup nb (pluses c0)) as [p0|] eqn:Ep0; [|discriminate].
-  destruct (renumber dedup nb (minuses c0)) as [m0|] eqn:Em0; [|discriminate].
-  destruct (used_ids dedup nb r) as [u0|] eqn:Eu; [|discriminate]. inversion H; subst.
-  destruct Hin as [->|Hin].
-  - rewrite Hp in Ep0. rewrite Hm in Em0. inversion Ep0; inversion Em0; subst.
-    rewrite He. rewrite app_assoc. apply in_or_app. left. assumption.
-  - assert (In x u0) by (eapply IH; eauto).
-    destruct (empty_vol p0 m0); [assumption|].
-    apply in_or_app. right. apply in_or_app. right. assumption.
+  unfold part_ids. destruct (expand_part m P) as [zs|]; [|discriminate].
+  destruct (renumber dedup nb (pluses_of zs)) as [p|] eqn:Ep;
+    destruct (renumber dedup nb (minuses_of zs)) as [mi|] eqn:Em; try discriminate.
+  destruct (empty_vol p mi) eqn:Ee; [discriminate|]. intros H. inversion H; subst.
+  exists zs, p, mi. auto.
 Qed.
 
-Lemma used_ids_out dedup nb cells : forall u x,
-  used_ids dedup nb cells = Ok u -> In x u ->
-  exists c p m, In c cells /\ renumber dedup nb (pluses c) = Ok p /\
-                renumber dedup nb (minuses c) = Ok m /\ empty_vol p m = false /\
-                In x (p ++ m).
+Lemma parts_ids_spec dedup nb m Ps : forall ids,
+  parts_ids dedup nb m Ps = Ok (Some ids) ->
+  (forall P, In P Ps -> exists a, part_ids dedup nb m P = Ok (Some a)) /\
+  (forall x, In x ids <-> exists P a, In P Ps /\ part_ids dedup nb m P = Ok (Some a) /\ In x a).
 Proof.
-  induction cells as [|c0 r IH]; intros u x H Hx; cbn in H.
-  - inversion H; subst. destruct Hx.
-  - destruct (renumber dedup nb (pluses c0)) as [p0|] eqn:Ep0; [|discriminate].
-    destruct (renumber dedup nb (minuses c0)) as [m0|] eqn:Em0; [|discriminate].
-    destruct (used_ids dedup nb r) as [u0|] eqn:Eu; [|discriminate]. inversion H; subst.
-    assert (Hrec : In x u0 -> exists c p m, In c (c0 :: r) /\
-              renumber dedup nb (pluses c) = Ok p /\ renumber dedup nb (minuses c) = Ok m /\
-              empty_vol p m = false /\ In x (p ++ m)).
-    { intros Hu. destruct (IH u0 x eq_refl Hu) as [c [p [m [H1 H2]]]].
-      exists c, p, m. split; [right; assumption|assumption]. }
-    destruct (empty_vol p0 m0) eqn:Ee; [auto|].
-    rewrite app_assoc in Hx. apply in_app_or in Hx. destruct Hx as [Hx|Hx]; [|auto].
-    exists c0, p0, m0. repeat split; auto. left. reflexivity.
+  induction Ps as [|P0 r IH]; intros ids H; cbn in H.
+  - inversion H; subst. split; [intros P []|]. intros x. split; [intros []|intros [P [a [[] _]]]].
+  - destruct (part_ids dedup nb m P0) as [o|] eqn:E0; [|discriminate].
+    destruct (parts_ids dedup nb m r) as [o'|] eqn:Er; [|discriminate].
+    destruct o as [a0|]; [|discriminate]. destruct o' as [b|]; [|discriminate].
+    inversion H; subst ids. destruct (IH b eq_refl) as [Hall Hin]. split.
+    + intros P [->|HP]; [eauto|auto].
+    + intros x. rewrite in_app_iff, Hin. split.
+      * intros [Hx|[P [a [HP [Ha Hx]]]]].
+        -- exists P0, a0. split; [left; reflexivity|auto].
+        -- exists P, a. split; [right; assumption|auto].
+      * intros [P [a [[->|HP] [Ha Hx]]]].
+        -- rewrite E0 in Ha. inversion Ha; subst. left. assumption.
+        -- right. exists P, a. auto.
+Qed.
+
+Lemma used_ids_spec dedup nb m cells : forall u,
+  used_ids dedup nb m cells = Ok u ->
+  forall x, In x u <->
+    exists c ids, In c cells /\ parts_ids dedup nb m (snd c) = Ok (Some ids) /\ In x ids.
+Proof.
+  induction cells as [|c0 r IH]; intros u H x; cbn in H.
+  - inversion H; subst. split; [intros []|intros [c [ids [[] _]]]].
+  - destruct (parts_ids dedup nb m (snd c0)) as [o|] eqn:E0; [|discriminate].
+    destruct (used_ids dedup nb m r) as [u0|] eqn:Eu; [|discriminate].
+    inversion H; subst u. specialize (IH u0 eq_refl x).
+    destruct o as [ids0|].
+    + rewrite in_app_iff, IH. split.
+      * intros [Hx|[c [ids [Hc [Hp Hx]]]]].
+        -- exists c0, ids0. split; [left; reflexivity|auto].
+        -- exists c, ids. split; [right; assumption|auto].
+      * intros [c [ids [[->|Hc] [Hp Hx]]]].
+        -- rewrite E0 in Hp. inversion Hp; subst. left. assumption.
+        -- right. exists c, ids. auto.
+    + rewrite IH. split.
+      * intros [c [ids [Hc [Hp Hx]]]]. exists c, ids. split; [right; assumption|auto].
+      * intros [c [ids [[->|Hc] [Hp Hx]]]]; [rewrite E0 in Hp; discriminate|].
+        exists c, ids. auto.
 Qed.
 
 Lemma insert_uniq_in k l x : In x (insert_uniq k l) <-> x = k \/ In x l.
@@ -564,43 +589,131 @@ Qed.
 
 Lemma geometry_ok dedup t cells surfs :
   geometry dedup t cells = Ok surfs ->
-  exists u, used_ids dedup (number_items t) cells = Ok u /\
+  exists u, used_ids dedup (number_items t) (matching_of t) cells = Ok u /\
             surf_lines (number_items t) (sort_uniq u) = Ok surfs.
 Proof.
   unfold geometry. destruct t as [|x r]; [discriminate|].
-  destruct (used_ids dedup (number_items (x :: r)) cells) as [u|] eqn:Eu; [|discriminate].
+  destruct (used_ids dedup (number_items (x :: r)) (matching_of (x :: r)) cells) as [u|] eqn:Eu;
+    [|discriminate].
   destruct u as [|y u']; [discriminate|]. intros H. exists (y :: u'). auto.
 Qed.
 
-(* the written SURF lines are exactly the representatives of the surfaces
-   used by surviving cells, each with its own descriptor *)
+(* the written SURF lines are exactly the representatives of the TRIPOLI-4
+   surfaces used by the volumes of surviving cells, each with its own descriptor *)
 Theorem written_surfaces_exact dedup t cells surfs k d :
   geometry dedup t cells = Ok surfs ->
   (In (k, d) surfs <->
    dict_get k (number_items t) = Some d /\
-   exists c k0, In c cells /\ survives dedup (number_items t) c /\ bounds c k0 /\
+   exists c k0, In c cells /\ survives dedup (number_items t) (matching_of t) c /\
+                uses (matching_of t) c k0 /\
                 repr_of dedup (number_items t) k0 = Some k).
 Proof.
   intros Hg. destruct (geometry_ok _ _ _ _ Hg) as [u [Hu Hl]]. split.
   - intros Hin. destruct (surf_lines_out _ _ _ _ _ Hl Hin) as [Hk Hd]. split; [assumption|].
     apply (proj1 (sort_uniq_in _ _)) in Hk.
-    destruct (used_ids_out _ _ _ _ _ Hu Hk) as [c [p [m [Hc [Hp [Hm [He Hx]]]]]]].
-    apply in_app_or in Hx. destruct Hx as [Hx|Hx].
-    + destruct (renumber_out _ _ _ _ _ Hp Hx) as [k0 [H1 H2]].
-      exists c, k0. repeat split; auto. exists p, m. auto. left. assumption.
-    + destruct (renumber_out _ _ _ _ _ Hm Hx) as [k0 [H1 H2]].
-      exists c, k0. repeat split; auto. exists p, m. auto. right. assumption.
-  - intros [Hd [c [k0 [Hc [[p [m [Hp [Hm He]]]] [Hb Hr]]]]]].
-    assert (Hk : In k (p ++ m)).
-    { destruct Hb as [Hb|Hb].
-      - destruct (renumber_in _ _ _ _ _ Hp Hb) as [k' [H1 H2]]. rewrite Hr in H1.
+    destruct (proj1 (used_ids_spec _ _ _ _ _ Hu k) Hk) as [c [ids [Hc [Hp Hx]]]].
+    destruct (parts_ids_spec _ _ _ _ _ Hp) as [_ Hids].
+    destruct (proj1 (Hids k) Hx) as [P [a [HP [Ha Hka]]]].
+    destruct (part_ids_some _ _ _ _ _ Ha) as [zs [p [mi [He [Hrp [Hrm [_ ->]]]]]]].
+    apply in_app_or in Hka. destruct Hka as [Hka|Hka].
+    + destruct (renumber_out _ _ _ _ _ Hrp Hka) as [k0 [H1 H2]].
+      exists c, k0. split; [assumption|]. split; [exists ids; assumption|].
+      split; [exists P, zs; auto|assumption].
+    + destruct (renumber_out _ _ _ _ _ Hrm Hka) as [k0 [H1 H2]].
+      exists c, k0. split; [assumption|]. split; [exists ids; assumption|].
+      split; [exists P, zs; auto|assumption].
+  - intros [Hd [c [k0 [Hc [[ids Hp] [[P [zs [HP [He Hb]]]] Hr]]]]]].
+    destruct (parts_ids_spec _ _ _ _ _ Hp) as [Hall Hids].
+    destruct (Hall P HP) as [a Ha].
+    destruct (part_ids_some _ _ _ _ _ Ha) as [zs' [p [mi [He' [Hrp [Hrm [_ Heq]]]]]]].
+    rewrite He in He'. inversion He'; subst zs'.
+    assert (Hk : In k a).
+    { subst a. destruct Hb as [Hb|Hb].
+      - destruct (renumber_in _ _ _ _ _ Hrp Hb) as [k' [H1 H2]]. rewrite Hr in H1.
         inversion H1; subst. apply in_or_app. left. assumption.
-      - destruct (renumber_in _ _ _ _ _ Hm Hb) as [k' [H1 H2]]. rewrite Hr in H1.
+      - destruct (renumber_in _ _ _ _ _ Hrm Hb) as [k' [H1 H2]]. rewrite Hr in H1.
         inversion H1; subst. apply in_or_app. right. assumption. }
-    pose proof (used_ids_in _ _ _ _ _ _ _ Hu Hc Hp Hm He k Hk) as Hku.
+    assert (Hku : In k u).
+    { apply (used_ids_spec _ _ _ _ _ Hu k). exists c, ids. split; [assumption|].
+      split; [assumption|]. apply Hids. exists P, a. auto. }
     apply (proj2 (sort_uniq_in _ _)) in Hku.
     destruct (surf_lines_in _ _ _ _ Hl Hku) as [d' [H1 H2]]. rewrite Hd in H1.
     inversion H1; subst. assumption.
+Qed.
+
+(* ---- a literal of the cell card puts its surface number in the volume ---- *)
+
+Lemma matching_from_get t : forall free k e,
+  NoDup (map fst t) -> In (k, e) t ->
+  exists s rest, dict_get k (matching_from t free) = Some (s :: rest) /\ Z.abs_N s = k.
+Proof.
+  induction t as [|[k0 e0] r IH]; intros free k e Hnd Hin; [destruct Hin|].
+  cbn. destruct (number_aux (e_aux e0) free) as [nb free'] eqn:E. cbn.
+  inversion Hnd as [|? ? Hn Hr]; subst.
+  destruct (N.eqb k k0) eqn:Ek.
+  - apply N.eqb_eq in Ek. subst k0.
+    destruct (match e_sides e0 with [] => true | s :: _ => s end).
+    + eexists. eexists. split; [reflexivity|]. apply Zabs2N.id.
+    + eexists. eexists. split; [reflexivity|]. rewrite Zabs2N.inj_opp. apply Zabs2N.id.
+  - destruct Hin as [Heq|Hin]; [inversion Heq; subst; rewrite N.eqb_refl in Ek; discriminate|].
+    eapply IH; eauto.
+Qed.
+
+Lemma sign_member (s : Z) zs :
+  In s zs -> s <> 0%Z -> In (Z.abs_N s) (pluses_of zs) \/ In (Z.abs_N s) (minuses_of zs).
+Proof.
+  intros Hin Hnz. unfold pluses_of, minuses_of.
+  destruct (Z.ltb 0 s) eqn:Es.
+  - left. apply in_map_iff. exists s. split.
+    + symmetry. apply Zabs2N.abs_N_nonneg. apply Z.ltb_lt in Es. lia.
+    + apply filter_In. auto.
+  - right. apply in_map_iff. exists s. split.
+    + apply Z.ltb_ge in Es. destruct s; cbn; try reflexivity. lia.
+    + apply filter_In. split; [assumption|]. apply Z.ltb_lt. apply Z.ltb_ge in Es. lia.
+Qed.
+
+Lemma expand_part_in m P : forall zs z,
+  expand_part m P = Ok zs -> In z P ->
+  exists a, expand_lit m z = Ok a /\ forall x, In x a -> In x zs.
+Proof.
+  induction P as [|z0 r IH]; intros zs z H Hin; [destruct Hin|]. cbn in H.
+  destruct (expand_lit m z0) as [a0|] eqn:E0; destruct (expand_part m r) as [b|] eqn:Er;
+    try discriminate. inversion H; subst zs.
+  destruct Hin as [->|Hin].
+  - exists a0. split; [assumption|]. intros x Hx. apply in_or_app. left. assumption.
+  - destruct (IH b z eq_refl Hin) as [a [Ha Hsub]]. exists a. split; [assumption|].
+    intros x Hx. apply in_or_app. right. auto.
+Qed.
+
+Lemma expand_lit_has m z s rest a :
+  dict_get (Z.abs_N z) m = Some (s :: rest) -> Z.abs_N s = Z.abs_N z ->
+  expand_lit m z = Ok a -> exists s', In s' a /\ Z.abs_N s' = Z.abs_N z.
+Proof.
+  intros Hg Hs H. unfold expand_lit in H. rewrite Hg in H. destruct rest as [|s2 rest].
+  - inversion H; subst. destruct (Z.ltb 0 z).
+    + exists s. split; [left; reflexivity|assumption].
+    + exists (Z.opp s). split; [left; reflexivity|]. rewrite Zabs2N.inj_opp. assumption.
+  - destruct (Z.ltb 0 z); [discriminate|]. inversion H; subst.
+    exists (Z.opp s). split; [left; reflexivity|]. rewrite Zabs2N.inj_opp. assumption.
+Qed.
+
+(* a surviving cell whose card names the key k of the dictionary uses the
+   TRIPOLI-4 id k *)
+Lemma names_uses dedup t c k e :
+  NoDup (map fst t) -> In (k, e) t ->
+  survives dedup (number_items t) (matching_of t) c -> names c k ->
+  uses (matching_of t) c k.
+Proof.
+  intros Hnd Hin [ids Hp] [P [z [HP [Hz [Hnz Hk]]]]].
+  destruct (parts_ids_spec _ _ _ _ _ Hp) as [Hall _]. destruct (Hall P HP) as [a Ha].
+  destruct (part_ids_some _ _ _ _ _ Ha) as [zs [p [mi [He _]]]].
+  destruct (expand_part_in _ _ _ _ He Hz) as [a' [Hl Hsub]].
+  destruct (matching_from_get t (N.succ (max_key t)) k e Hnd Hin) as [s [rest [Hg Hs]]].
+  fold (matching_of t) in Hg. rewrite <- Hk in Hg, Hs.
+  destruct (expand_lit_has _ _ _ _ _ Hg Hs Hl) as [s' [Hs' Habs]].
+  exists P, zs. split; [assumption|]. split; [assumption|].
+  rewrite <- Hk, <- Habs. apply sign_member; [auto|].
+  intros Hc. subst s'. cbn in Habs. destruct z; [contradiction|discriminate|discriminate].
 Qed.
 
 (* ---- every entry of conversionBoundCond is sound --------------------------- *)
@@ -873,7 +986,8 @@ Lemma finish_designates cfg t cells surfs bcs k e :
   skip_bc cfg = false -> NoDup (map fst t) ->
   finish cfg t cells = Ok (surfs, bcs) ->
   In (k, e) t -> (e_flag e = "*" \/ e_flag e = "+") ->
-  (exists c, In c cells /\ survives (negb (skip_dedup cfg)) (number_items t) c /\ bounds c k) ->
+  (exists c, In c cells /\ survives (negb (skip_dedup cfg)) (number_items t) (matching_of t) c /\
+             names c k) ->
   let k' := rep (negb (skip_dedup cfg)) (number_items t) k in
   In (kind_of (e_flag e), k') bcs /\ count_key k' bcs = 1%nat /\ In (k', e_first e) surfs.
 Proof.
@@ -882,7 +996,8 @@ Proof.
   destruct (rep_descriptor (negb (skip_dedup cfg)) t k e Hnd Hin) as [Hrep Hdesc]. fold k' in Hrep, Hdesc.
   assert (Hsurf : In (k', e_first e) surfs).
   { apply (written_surfaces_exact _ _ _ _ k' (e_first e) Egeo). split; [assumption|].
-    exists c, k. auto. }
+    exists c, k. split; [assumption|]. split; [assumption|].
+    split; [eapply names_uses; eauto|assumption]. }
   destruct (merge_entries_spec _ _ _ _ _ _ Em) as [_ [H2 [_ H4]]].
   assert (Hl : In (kind_of (e_flag e), k) l).
   { destruct (bc_kind t l k e Ebc Hin) as [H1 [H1' _]].
@@ -919,6 +1034,48 @@ Proof.
   rewrite Hdesc in Hd'. inversion Hd'; subst. assumption.
 Qed.
 
+(* the representative of a key is a key: never the fresh id of an auxiliary
+   sub-surface (plane of a one-sheet cone, facet of a macrobody) *)
+Lemma rep_is_key dedup t k e :
+  NoDup (map fst t) -> In (k, e) t -> In (rep dedup (number_items t) k) (map fst t).
+Proof.
+  intros Hnd Hin. pose proof (number_items_get t k e Hnd Hin) as Hd.
+  unfold rep, repr_of. rewrite Hd. destruct dedup.
+  - destruct (min_with_some (e_first e) (number_items t) k (dict_get_In _ _ _ Hd)) as [m Hm].
+    rewrite Hm. destruct (min_with_spec _ _ _ Hm) as [Hmin Hle].
+    specialize (Hle k (dict_get_In _ _ _ Hd)).
+    assert (Hm' : In m (map fst (number_items t))).
+    { apply in_map_iff. exists (m, e_first e). auto. }
+    unfold number_items in Hm'. apply number_from_keys in Hm'.
+    + destruct Hm' as [H|H]; [assumption|]. pose proof (max_key_ge t k e Hin). lia.
+    + intros k0 e0 H0. pose proof (max_key_ge t k0 e0 H0). lia.
+  - apply in_map_iff. exists (k, e). auto.
+Qed.
+
+(* every designated number is a surface number of the dictionary (a card, or a
+   copy made for a TRCL / FILL), hence at most the largest of them: the
+   auxiliary sub-surfaces, numbered above it, never carry an entry *)
+Lemma finish_designates_keys cfg t cells surfs bcs kd k' :
+  skip_bc cfg = false -> NoDup (map fst t) ->
+  finish cfg t cells = Ok (surfs, bcs) -> In (kd, k') bcs ->
+  In k' (map fst t) /\ (k' <= max_key t)%N.
+Proof.
+  intros Hs Hnd Hfin Hin.
+  destruct (finish_sound _ _ _ _ _ Hs Hnd Hfin) as [_ Hall].
+  destruct (Hall kd k' Hin) as [k [e [He [_ [_ [_ [Hr _]]]]]]].
+  assert (Hk : In k' (map fst t)) by (rewrite <- Hr; eapply rep_is_key; eauto).
+  split; [assumption|]. apply in_map_iff in Hk. destruct Hk as [[k0 e0] [Hk0 Hin0]].
+  cbn in Hk0. subst k0. eapply max_key_ge; eauto.
+Qed.
+
+(* the auxiliary sub-surfaces of a card are numbered above every surface number *)
+Lemma aux_ids_above t : forall free x,
+  (forall k e, In (k, e) t -> (k < free)%N) ->
+  In x (map fst (number_from t free)) -> ~ In x (map fst t) -> (free <= x)%N.
+Proof.
+  intros free x Hlt Hx Hn. destruct (number_from_keys t free Hlt x Hx); [contradiction|assumption].
+Qed.
+
 (* two coincident surfaces flagged differently whose common representative is
    written: the run stops with a ValueError *)
 Lemma finish_conflict cfg t cells surfs k1 e1 k2 e2 :
@@ -951,7 +1108,8 @@ Theorem bc_designates_present_same_locus cfg cards cells t surfs bcs k e :
   parse_cards cards [] = Ok t ->
   run cfg cards cells = Ok (surfs, bcs) ->
   In (k, e) t -> (e_flag e = "*" \/ e_flag e = "+") ->
-  (exists c, In c cells /\ survives (negb (skip_dedup cfg)) (number_items t) c /\ bounds c k) ->
+  (exists c, In c cells /\ survives (negb (skip_dedup cfg)) (number_items t) (matching_of t) c /\
+             names c k) ->
   let k' := rep (negb (skip_dedup cfg)) (number_items t) k in
   In (kind_of (e_flag e), k') bcs /\ count_key k' bcs = 1%nat /\ In (k', e_first e) surfs.
 Proof.
@@ -991,14 +1149,30 @@ Qed.
 
 (* *2 PX 0 and *3 PX 0 (class 7), the cell uses 3: one entry, on SURF 2 *)
 Definition w_dedup_cards : list scard :=
-  [mkS "1" 1 5 []; mkS "*2" 1 7 []; mkS "*3" 1 7 []; mkS "4" 1 9 []].
-Definition w_dedup_cells : list cell := [(1%N, [(-1)%Z; 3%Z; (-4)%Z])].
+  [mkS "1" 1 5 [] []; mkS "*2" 1 7 [] []; mkS "*3" 1 7 [] []; mkS "4" 1 9 [] []].
+Definition w_dedup_cells : list cell := [(1%N, [[(-1)%Z; 3%Z; (-4)%Z]])].
 
 (* *5 PY 7 is used by no cell: no entry *)
 Definition w_unused_cards : list scard :=
-  [mkS "1" 1 5 []; mkS "2" 1 7 []; mkS "4" 1 9 []; mkS "*5" 1 11 []].
-Definition w_unused_cells : list cell := [(1%N, [(-1)%Z; 2%Z; (-4)%Z])].
+  [mkS "1" 1 5 [] []; mkS "2" 1 7 [] []; mkS "4" 1 9 [] []; mkS "*5" 1 11 [] []].
+Definition w_unused_cells : list cell := [(1%N, [[(-1)%Z; 2%Z; (-4)%Z]])].
 
 (* *2 PX 0 and +3 PX 0, the cell uses 3, de-duplication on *)
 Definition w_conflict_cards : list scard :=
-  [mkS "1" 1 5 []; mkS "*2" 1 7 []; mkS "+3" 1 7 []; mkS "4" 1 9 []].
+  [mkS "1" 1 5 [] []; mkS "*2" 1 7 [] []; mkS "+3" 1 7 [] []; mkS "4" 1 9 [] []].
+
+Theorem bc_designates_keys cfg cards cells t surfs bcs kd k' :
+  skip_bc cfg = false ->
+  parse_cards cards [] = Ok t ->
+  run cfg cards cells = Ok (surfs, bcs) -> In (kd, k') bcs ->
+  In k' (map fst t) /\ (k' <= max_key t)%N.
+Proof.
+  intros Hs Hp Hrun. unfold run in Hrun. rewrite Hp in Hrun.
+  eapply finish_designates_keys; eauto. eapply parsed_keys_distinct; eauto.
+Qed.
+
+(* a flagged one-sheet cone *7 KZ 0 1 1 (cone: class 14, plane z = 0: class 8, on
+   its positive side) and 3 PZ 0; the cell is inside the sheet and above 3 *)
+Definition w_cone_cards : list scard :=
+  [mkS "3" 1 8 [] []; mkS "*7" 1 14 [8%N] [true; false]; mkS "9" 1 11 [] []].
+Definition w_cone_cells : list cell := [(1%N, [[(-7)%Z; 3%Z; (-9)%Z]])].
